@@ -9,7 +9,7 @@ CONSTANTS MaxCommit, Depth, WithRestart
 
 VARIABLES hist,   \* the API calls so far
           pend,   \* bugs still to be merged by the MergeAll in progress (MergeAll = one Merge per tracking ref)
-          who     \* replica running that MergeAll
+          who     \* replica running that MergeAll, and the remote it merges from
 
 mvars == <<commits, nops, ref, trk, hub, clk, res, hist, pend, who>>
 
@@ -22,30 +22,30 @@ Room(n) == Len(commits) + n <= MaxCommit
 Idle == pend = {}
 Log(e) == hist' = Append(hist, e)
 
-MInit == Init /\ hist = <<>> /\ pend = {} /\ who = CHOOSE r \in Replica : TRUE
+MInit == Init /\ hist = <<>> /\ pend = {} /\ who = <<CHOOSE r \in Replica : TRUE, CHOOSE m \in Remote : TRUE>>
 
 MNewBug == \E r \in Replica, runs \in RunChoices :
    /\ Idle /\ Room(Len(runs)) /\ NewBug(r, runs, Rk)
-   /\ Log([act |-> "NewBug", r |-> r, b |-> 0, runs |-> runs, loaders |-> FALSE]) /\ UNCHANGED <<pend, who>>
+   /\ Log([act |-> "NewBug", r |-> r, b |-> 0, runs |-> runs, loaders |-> FALSE, m |-> "origin"]) /\ UNCHANGED <<pend, who>>
 MEdit == \E r \in Replica, b \in Bugs, runs \in RunChoices :
    /\ Idle /\ Room(Len(runs)) /\ Edit(r, b, runs, Rk)
-   /\ Log([act |-> "Edit", r |-> r, b |-> b, runs |-> runs, loaders |-> FALSE]) /\ UNCHANGED <<pend, who>>
+   /\ Log([act |-> "Edit", r |-> r, b |-> b, runs |-> runs, loaders |-> FALSE, m |-> "origin"]) /\ UNCHANGED <<pend, who>>
 MRead == \E r \in Replica, b \in Bugs :
    /\ Idle /\ res.kind \in {"merge", "edit", "reopen"} /\ Read(r, b)
-   /\ Log([act |-> "Read", r |-> r, b |-> b, runs |-> <<>>, loaders |-> FALSE]) /\ UNCHANGED <<pend, who>>
-MPush == \E r \in Replica :
-   /\ Idle /\ (\E b \in Bugs : ref[r][b] # 0 /\ ref[r][b] # hub[b]) /\ Push(r)
-   /\ Log([act |-> "Push", r |-> r, b |-> 0, runs |-> <<>>, loaders |-> FALSE]) /\ UNCHANGED <<pend, who>>
-MFetch == \E r \in Replica :
-   /\ Idle /\ (\E b \in Bugs : hub[b] # 0 /\ trk[r][b] # hub[b]) /\ Fetch(r)
-   /\ Log([act |-> "Fetch", r |-> r, b |-> 0, runs |-> <<>>, loaders |-> FALSE]) /\ UNCHANGED <<pend, who>>
-MMergeAllBegin == \E r \in Replica :
-   /\ Idle /\ (\E b \in Bugs : trk[r][b] # 0 /\ trk[r][b] # ref[r][b])
-   /\ pend' = {b \in Bugs : trk[r][b] # 0} /\ who' = r
-   /\ Log([act |-> "MergeAll", r |-> r, b |-> 0, runs |-> <<>>, loaders |-> FALSE])
+   /\ Log([act |-> "Read", r |-> r, b |-> b, runs |-> <<>>, loaders |-> FALSE, m |-> "origin"]) /\ UNCHANGED <<pend, who>>
+MPush == \E r \in Replica, m \in Remote :
+   /\ Idle /\ (\E b \in Bugs : ref[r][b] # 0 /\ ref[r][b] # hub[m][b]) /\ Push(r, m)
+   /\ Log([act |-> "Push", r |-> r, b |-> 0, runs |-> <<>>, loaders |-> FALSE, m |-> m]) /\ UNCHANGED <<pend, who>>
+MFetch == \E r \in Replica, m \in Remote :
+   /\ Idle /\ (\E b \in Bugs : hub[m][b] # 0 /\ trk[r][m][b] # hub[m][b]) /\ Fetch(r, m)
+   /\ Log([act |-> "Fetch", r |-> r, b |-> 0, runs |-> <<>>, loaders |-> FALSE, m |-> m]) /\ UNCHANGED <<pend, who>>
+MMergeAllBegin == \E r \in Replica, m \in Remote :
+   /\ Idle /\ (\E b \in Bugs : trk[r][m][b] # 0 /\ trk[r][m][b] # ref[r][b])
+   /\ pend' = {b \in Bugs : trk[r][m][b] # 0} /\ who' = <<r, m>>
+   /\ Log([act |-> "MergeAll", r |-> r, b |-> 0, runs |-> <<>>, loaders |-> FALSE, m |-> m])
    /\ UNCHANGED vars
 MMergeOne == \E b \in pend :
-   /\ Room(1) /\ Merge(who, b, "u1", Rk) /\ pend' = pend \ {b} /\ UNCHANGED <<hist, who>>
+   /\ Room(1) /\ Merge(who[1], who[2], b, "u1", Rk) /\ pend' = pend \ {b} /\ UNCHANGED <<hist, who>>
 MRestart == \E r \in Replica, ld \in BOOLEAN, del \in BOOLEAN :
    /\ WithRestart /\ Idle /\ res.kind # "reopen"
    /\ IF del
@@ -56,10 +56,10 @@ MRestart == \E r \in Replica, ld \in BOOLEAN, del \in BOOLEAN :
                                         IN IF ld THEN WitnessHeads(base, heads) ELSE base]
            /\ res' = [kind |-> "reopen", r |-> r]
            /\ UNCHANGED <<commits, nops, ref, trk, hub>>
-           /\ hist' = hist \o << [act |-> "DeleteClocks", r |-> r, b |-> 0, runs |-> <<>>, loaders |-> FALSE],
-                                 [act |-> "Reopen", r |-> r, b |-> 0, runs |-> <<>>, loaders |-> ld] >>
+           /\ hist' = hist \o << [act |-> "DeleteClocks", r |-> r, b |-> 0, runs |-> <<>>, loaders |-> FALSE, m |-> "origin"],
+                                 [act |-> "Reopen", r |-> r, b |-> 0, runs |-> <<>>, loaders |-> ld, m |-> "origin"] >>
       ELSE /\ Reopen(r, ld)
-           /\ Log([act |-> "Reopen", r |-> r, b |-> 0, runs |-> <<>>, loaders |-> ld])
+           /\ Log([act |-> "Reopen", r |-> r, b |-> 0, runs |-> <<>>, loaders |-> ld, m |-> "origin"])
    /\ UNCHANGED <<pend, who>>
 
 MNext == \/ Len(hist) < Depth /\ (MNewBug \/ MEdit \/ MRead \/ MPush \/ MFetch \/ MMergeAllBegin \/ MRestart)
